@@ -26,6 +26,8 @@ TARGETS = [
         ("VelocityControl", "new_with_intervals", "C12", "C12_fn_new_with_intervals"),
         ("VelocityControl", "new_unlimited", "C12", "C12_fn_new_unlimited"),
         ("VelocityControl", "new", "C12", "C12_fn_new"),
+        ("VelocityControl", "with_state", "C12", "C12_fn_with_state"),
+        ("VelocityControl", "load_from_state", "C12", "C12_fn_load_from_state"),
     ]),
     dict(area="Simple", rel="vls-core/src/policy/simple_validator.rs", consts=["vls-core/src/policy/mod.rs"], externals={}, fns=[
         ("SimpleValidator", "validate_delay", "C05", "C05_fn_validate_delay"),
